@@ -212,8 +212,14 @@ def check_config(ctx: Ctx) -> None:
     mflow = prog.flow(merge)
     locked = None
     for n in walk_no_nested(merge.node):
-        if isinstance(n, ast.Set) and all(isinstance(e, ast.Constant) and isinstance(e.value, str) for e in n.elts):
-            locked = {e.value for e in n.elts}  # type: ignore[attr-defined]
+        v = _str_set(n)
+        if v is None and isinstance(n, ast.Name) and isinstance(n.ctx, ast.Load) and not mflow.defs_of_var.get(n.id):
+            # a module-level constant holding the set
+            r = repo.lookup(n.id, merge.module, merge)
+            if isinstance(r, ConstInfo) and len(r.assigns) == 1:
+                v = _str_set(getattr(r.assigns[0], "value", None))
+        if v is not None and not (isinstance(getattr(n, "_parent", None), ast.Call) and _str_set(getattr(n, "_parent", None)) is not None):
+            locked = v
             lnode = n
     if locked is None:
         raise AnalysisError("anchor vanished: auto-locked set literal in merge_cli_with_config")
@@ -237,6 +243,57 @@ def check_config(ctx: Ctx) -> None:
 
     # ---- K8 main wires the merge before anything consumes the options
     _check_main_wiring(ctx, main, merge)
+
+
+def must_atoms(edges) -> list[tuple[ast.AST, bool]]:
+    """Sub-conditions with the truth value they are known to have, given the (test node, label) branch edges taken:
+    `if not A: continue` passed on F gives (A, True); `if A or B: continue` passed on F gives (A, False), (B, False)."""
+    out: list[tuple[ast.AST, bool]] = []
+
+    def add(e: ast.AST, truth: bool) -> None:
+        if isinstance(e, ast.UnaryOp) and isinstance(e.op, ast.Not):
+            add(e.operand, not truth)
+        elif isinstance(e, ast.BoolOp) and isinstance(e.op, ast.And) and truth:
+            for v in e.values:
+                add(v, True)
+        elif isinstance(e, ast.BoolOp) and isinstance(e.op, ast.Or) and not truth:
+            for v in e.values:
+                add(v, False)
+        else:
+            out.append((e, truth))
+
+    for b, lab in edges:
+        if b.kind == "test" and lab in ("T", "F"):
+            add(b.ast, lab == "T")
+    return out
+
+
+def _str_set(n: ast.AST | None) -> set[str] | None:
+    """{"a", "b"} / frozenset({"a", "b"}) / set(["a", "b"]) as a Python set, else None."""
+    if isinstance(n, ast.Call) and isinstance(n.func, ast.Name) and n.func.id in ("frozenset", "set") and len(n.args) == 1 and not n.keywords:
+        n = n.args[0]
+        if isinstance(n, (ast.List, ast.Tuple)) and n.elts and all(isinstance(e, ast.Constant) and isinstance(e.value, str) for e in n.elts):
+            return {e.value for e in n.elts}  # type: ignore[attr-defined]
+    if isinstance(n, ast.Set) and all(isinstance(e, ast.Constant) and isinstance(e.value, str) for e in n.elts):
+        return {e.value for e in n.elts}  # type: ignore[attr-defined]
+    return None
+
+
+def _resolve_str_set(ctx: Ctx, fi: FuncInfo, e: ast.AST, node: Node) -> set[str] | None:
+    """The constant set of strings `e` denotes: a literal, a local bound to one, or a module-level constant."""
+    v = _str_set(e)
+    if v is not None:
+        return v
+    if isinstance(e, ast.Name):
+        flow = ctx.prog.flow(fi)
+        defs = flow.reaching(node, e.id)
+        if defs:
+            vals = [_str_set(d.value) for d in defs]
+            return vals[0] if len(vals) == 1 and vals[0] is not None else None
+        r = ctx.repo.lookup(e.id, fi.module, fi)
+        if isinstance(r, ConstInfo) and len(r.assigns) == 1:
+            return _str_set(getattr(r.assigns[0], "value", None))
+    return None
 
 
 def _strip_enum(ctx: Ctx, fi: FuncInfo, expr: ast.AST) -> ast.AST:
@@ -352,13 +409,7 @@ def _check_merge_guards(ctx: Ctx, merge: FuncInfo, cfg_cls: ClassInfo) -> None:
 
     def is_in_locked(l: ast.AST, t: Node) -> bool:
         if isinstance(l, ast.Compare) and len(l.ops) == 1 and isinstance(l.ops[0], ast.In):
-            c = l.comparators[0]
-            if isinstance(c, ast.Set):
-                return True
-            if isinstance(c, ast.Name):
-                for d in flow.reaching(t, c.id):
-                    if isinstance(d.value, ast.Set):
-                        return True
+            return _resolve_str_set(ctx, merge, l.comparators[0], t) is not None
         return False
 
     def is_param(pname: str):
@@ -425,7 +476,9 @@ def _check_find_config(ctx: Ctx) -> None:
     # the upward walk: the loop(s) in which the search moves to `.parent`
     moves0 = [n for n in flow.cfg.nodes if n.kind == "stmt" and isinstance(n.ast, ast.Assign) and ".parent" in ast.unparse(n.ast.value)]
     whiles = [t for t in flow.cfg.nodes if (t.kind == "test" and isinstance(t.owner, ast.While)) or (t.kind == "for" and t is not name_loop)]
-    whiles = [w for w in whiles if any(mv in flow.loop_body_nodes(w) for mv in moves0)]
+    # ... or that iterates the chain of parents itself: for d in (start, *start.parents)
+    whiles = [w for w in whiles if any(mv in flow.loop_body_nodes(w) for mv in moves0)
+              or (w.kind == "for" and any(isinstance(x, ast.Attribute) and x.attr == "parents" for x in ast.walk(expand_expr(prog, fi, w.ast.iter, w))))]
     nested = any(name_loop in flow.loop_body_nodes(w) for w in whiles)
     inverted = any(w in flow.loop_body_nodes(name_loop) for w in whiles)
     ctx.ob("R-CONFIG-K5", f"{fi.qual} :: nearest directory first", nested and not inverted,
@@ -440,7 +493,7 @@ def _check_find_config(ctx: Ctx) -> None:
         from ..cfg import must_edges
 
         guards = sorted(must_edges(flow.cfg, name_loop, r) or set(), key=lambda x: x[0].id)
-        has_isfile = any(lab == "T" and b.kind == "test" and ".is_file()" in ast.unparse(b.ast) for b, lab in guards)
+        has_isfile = any(truth and ".is_file()" in ast.unparse(a) for a, truth in must_atoms(guards))
         ctx.ob("R-CONFIG-K5", f"{fi.qual} :: {norm(r.ast)} requires an existing file", has_isfile,
                "a candidate is only returned when it exists as a file", where(fi, r))
         py_T = any(lab == "T" and b.kind == "test" and "pyproject.toml" in ast.unparse(b.ast) for b, lab in guards)
@@ -463,6 +516,7 @@ def _check_find_config(ctx: Ctx) -> None:
     ctx.require("R-CONFIG-K5", "successful returns of find_config_file", n_ret, 1)
     # the walk starts at the resolved start directory and moves to .parent
     moves = [n for n in flow.cfg.nodes if n.kind == "stmt" and isinstance(n.ast, ast.Assign) and ".parent" in ast.unparse(n.ast.value)]
+    moves += [w for w in whiles if w.kind == "for"]
     ctx.ob("R-CONFIG-K5", f"{fi.qual} :: upward walk", bool(moves), "the search moves to the parent directory", where(fi, fi.node))
 
 
@@ -498,9 +552,11 @@ def _check_kebab(ctx: Ctx, cfg_fields: list[str]) -> None:
         prints = [n for n, c in flow.all_calls() if isinstance(c.func, ast.Name) and c.func.id == "print"]
         ok = False
         for pn in prints:
-            for b, lab in flow.control_deps(pn):
-                if b.kind == "test" and lab == "F" and "_VALID_FIELDS" in ast.unparse(b.ast):
-                    ok = True
+            # the warning is printed exactly where the key is known not to be a valid field
+            for a, truth in must_atoms(flow.control_deps(pn)):
+                if isinstance(a, ast.Compare) and len(a.ops) == 1 and "_VALID_FIELDS" in ast.unparse(a.comparators[0]):
+                    if (isinstance(a.ops[0], ast.In) and not truth) or (isinstance(a.ops[0], ast.NotIn) and truth):
+                        ok = True
         ctx.ob("R-CONFIG-K7", f"{parse.qual} :: unknown keys warn", ok,
                "a key that is not a FlowmarkConfig field must produce a warning (so 'accepted without warning' == fields(FlowmarkConfig))",
                where(parse, parse.node))
